@@ -291,6 +291,9 @@ func GenBase(r *Rand, p *Profile) *h.Scenario {
 		c.TermH = rows + 2 + r.Intn(4)
 		if r.Bool(p.PTightTerm) {
 			c.TermH = r.Range(1, rows+2)
+			if r.Bool(0.08) {
+				c.TermH = 0 // a pseudo terminal whose size has not been set yet reports 0 rows
+			}
 		}
 		if r.Bool(p.PResize) {
 			// the terminal only grows: rows drawn before a shrink (or re-wrapped by a
